@@ -307,6 +307,36 @@ def config_lines(limit: int, rnd: random.Random) -> list:
     return lines if len(lines) <= limit else rnd.sample(lines, limit)
 
 
+def tunnel_lines(ck, tier: str) -> list:
+    """SR Policy tunnel encapsulation attributes with the reference bytes computed in TLA+ (Gen_ExaTunnel): the bytes go
+    through the real decoder, and must come back unchanged (they are canonical), twice, with equal renderings"""
+    from harness import c03
+
+    neg = c03.make_neg('all')
+    states = updcheck.gen_rows(ck, 'Gen_ExaTunnel', 2 if tier == 'quick' else 4, 'c15t' + tier[0], invariants=('TableOK',))
+    lines = []
+    for st in states:
+        raw = bytes(st['bytes'])
+        out = {'kind': 'trip', 'what': 'attribute 23 TunnelEncap (reference bytes) ' + json.dumps(st['u'], sort_keys=True), 'canonical': True, 'error': '', 'inb': list(raw), 'out': [], 'out2': [],
+               'eq': False, 'hashEq': True, 'idxEq': True, 'renderSame': False}
+        try:
+            c1 = AttributeCollection.unpack(memoryview(raw), neg)
+            c2 = AttributeCollection.unpack(memoryview(bytes(raw)), neg)
+            if 23 not in c1:
+                out['error'] = 'the reference bytes decode to no tunnel encapsulation attribute (codes %s)' % sorted(int(k) for k in c1.keys())
+            else:
+                b1 = bytes(c1[23].pack_attribute(neg))
+                out['out'] = list(b1)
+                d = AttributeCollection.unpack(memoryview(b1), neg)
+                out['out2'] = list(bytes(d[23].pack_attribute(neg))) if 23 in d else []
+                out['eq'] = 23 in d and bool(d[23] == c1[23])
+                out['renderSame'] = render(c1[23]) == render(c2[23])
+        except Exception as exc:  # noqa: BLE001
+            out['error'] = type(exc).__name__ + ': ' + str(exc)[:140]
+        lines.append(out)
+    return lines
+
+
 ATTR_TEXTS = [
     'origin igp', 'origin incomplete', 'as-path [ 65001 65002 ]', 'as-path [ 65001 4200000000 ] ( 65030 65040 )', 'med 0', 'med 4294967295', 'local-preference 100',
     'atomic-aggregate', 'aggregator ( 65010:10.0.0.9 )', 'aggregator ( 4200000000:10.0.0.9 )', 'community [ 65000:1 ]', 'community [ no-export 65000:1 65000:2 ]',
@@ -365,7 +395,7 @@ def run(tier: str) -> int:
         lines.append(ln)
         ck.count({'r': r, 'r2': r2}, nontrivial=bool(diff(r)))
     n_rows = len(lines)
-    trips = corpus_lines(4000 if tier == 'quick' else 100000, rnd) + config_lines(4000 if tier == 'quick' else 100000, rnd) + text_attr_lines(sessions[False])
+    trips = corpus_lines(4000 if tier == 'quick' else 100000, rnd) + config_lines(4000 if tier == 'quick' else 100000, rnd) + text_attr_lines(sessions[False]) + tunnel_lines(ck, tier)
     for ln in trips:
         ck.count({'what': ln['what'], 'inb': bytes(ln['inb']).hex()[:64]})
     lines += trips
@@ -383,7 +413,7 @@ def run(tier: str) -> int:
         ln = lines[b['id']]
         for clause in b['clauses']:
             if ln['kind'] == 'trip':
-                fp = {'clause': clause, 'what': ln['what'].split(' <- ')[0]}
+                fp = {'clause': clause, 'what': ln['what'].split(' <- ')[0].split(' (reference bytes)')[0]}
                 what = f'{clause}: {ln["what"]} in={bytes(ln["inb"]).hex()[:80]} out={bytes(ln["out"]).hex()[:80]} error={ln["error"]!r}'
             else:
                 fp = {'clause': clause, 'changed': diff(ln['r']), 'other': diff(ln['r2']) if ln['kind'] == 'pair' else {}}
